@@ -35,7 +35,8 @@ for d in sorted(os.listdir(BENIGN)):
                 bad.append((prop, r.returncode, [re.sub(r".*replay=\S*/", "", l) for l in r.stdout.splitlines() if l.startswith("VIOLATION")][:4], r.stderr[-300:] if r.returncode not in (0, 1) else ""))
             elif und:
                 bad.append((prop, "undecided", und.group(1)))
-        rows.append((d, "ok" if not bad else "ALARM", bad))
+        false_alarm = any(b[1] != "undecided" for b in bad)
+        rows.append((d, "ok" if not bad else ("FALSE-ALARM" if false_alarm else "undecided-only"), bad))
         print(rows[-1], flush=True)
     finally:
         shutil.rmtree(tmp, ignore_errors=True)
